@@ -8,8 +8,9 @@ import sem_common as sc
 
 ID = "C11"
 SOURCES = ["dagrt/exec_numpy.py", "dagrt/language.py", "dagrt/codegen/python.py"]
-RULE = ("the multi-phase builder programs of C01 (every phase calls user functions: in expressions, in loop bodies, as "
-        "multi-result and keyword call statements) x a fault plan 'the k-th call of a user function raises' for k spread over "
+RULE = ("the multi-phase builder programs of C01 (every phase calls user functions: in expressions, in loop bodies, in loop "
+        "bounds, as multi-result and keyword call statements; in a third of the cases also inside statement CONDITIONS "
+        "(guard c replaced by g(c, y=0), same truth value), in a third the temporaries t1, t2 are spelled <t>_new, <dt>_used) x a fault plan 'the k-th call of a user function raises' for k spread over "
         "all calls of the run, so that 0..4 steps complete before the failure; both back ends (REAL NumpyInterpreter, class "
         "emitted by the REAL Python CodeGenerator). Oracle on the real objects: (1) the very exception object that was raised "
         "reaches the caller of run(); (2) afterwards no per-step variable is visible (interpreter: keys of the context; "
@@ -39,6 +40,10 @@ class Injected(Exception):
     pass
 
 
+class InjectedAttr(AttributeError):
+    """a failed attribute look-up inside the user's function (an AttributeError subclass)"""
+
+
 class Faulty:
     """the deterministic user functions of sem_common with a global call counter; the k-th call raises"""
 
@@ -48,12 +53,16 @@ class Faulty:
         self.exc = None
         self.on_fail = None
         self.exc_class = exc_class
+        self.in_cond = False        # set by the harness while a statement's condition is being evaluated (interpreter)
+        self.cond_calls = []        # indices of the calls made from inside a condition
 
     def wrap(self, fn):
         def f(*a, **kw):
             self.n += 1
+            if self.in_cond:
+                self.cond_calls.append(self.n)
             if self.k is not None and self.n == self.k:
-                cls = {"Injected": Injected, "InjectedKey": InjectedKey}.get(self.exc_class) or getattr(builtins, self.exc_class)
+                cls = {"Injected": Injected, "InjectedKey": InjectedKey, "InjectedAttr": InjectedAttr}.get(self.exc_class) or getattr(builtins, self.exc_class)
                 self.exc = cls(f"call {self.n}")
                 self.exc._dagrt_verif_injected = True
                 if self.on_fail:
@@ -66,15 +75,59 @@ class Faulty:
         return {name: self.wrap(fn) for name, fn in sc.USER_FUNCS.items()}
 
 
+ODD_TEMPS = {"t1": "<t>_new", "t2": "<dt>_used"}      # per-step names that merely BEGIN like the two persistent scalars
+
+
+def _rename(j, m):
+    if isinstance(j, str):
+        return m.get(j, j)
+    if isinstance(j, list):
+        return [_rename(x, m) for x in j]
+    if isinstance(j, dict):
+        return {k: _rename(v, m) for k, v in j.items()}
+    return j
+
+
+def calls_into_conditions(code, seed):
+    """the same program with some guards `c` replaced by `<func>g(c, y=0)` (= c - 0: same truth value): a user
+    function called while a statement's CONDITION is evaluated, which the builder never produces (it assigns
+    conditions to flags first) but hand-made statements may"""
+    import random
+    from pymbolic.primitives import CallWithKwargs, Variable
+    from dagrt.language import DAGCode, ExecutionPhase
+    rr = random.Random(seed)
+    phases = {}
+    for name in sorted(code.phases):
+        ph = code.phases[name]
+        stmts = []
+        for st in ph.statements:
+            c = getattr(st, "condition", True)
+            if c is not True and rr.random() < 0.6:
+                st = st.copy(condition=CallWithKwargs(Variable("<func>g"), (c,), {"y": 0}))
+            stmts.append(st)
+        phases[name] = ExecutionPhase(name, ph.next_phase, stmts)
+    return DAGCode(phases, code.initial_phase)
+
+
+def build_code(case):
+    c = case
+    if case.get("odd_temps"):
+        c = dict(case, phases=_rename(case["phases"], ODD_TEMPS))
+    code = c01.build_code(c)
+    if case.get("cond_calls"):
+        code = calls_into_conditions(code, case["cond_calls"])
+    return code
+
+
 def count_calls(case):
     """number of user-function calls in a fault-free run (interpreter)"""
     fz = Faulty(None)
-    code = c01.build_code(case)
+    code = build_code(case)
     try:
         run_to_fault(case, "interp", code, fz)
     except c01.BackendError:
-        return 0
-    return fz.n
+        return 0, []
+    return fz.n, fz.cond_calls
 
 
 def make_backend(case, kind, code, funcs):
@@ -155,7 +208,11 @@ def run_to_fault(case, kind, code, fz):
 
         def evaluate_condition(stmt):
             step_log.append(stmt.id)
-            return orig_eval(stmt)
+            fz.in_cond = True
+            try:
+                return orig_eval(stmt)
+            finally:
+                fz.in_cond = False
         m.evaluate_condition = evaluate_condition
         orig_reset = m.exec_controller.reset
 
@@ -226,6 +283,12 @@ def g_case(rng):
                 l = rng.choice(ls)
                 l[2] = ["call", "<func>g", [l[2]], [["y", ["c", 0]]]]
                 case["tag"] = "fault-call-in-bound"
+    if rng.random() < 0.35:
+        case["cond_calls"] = rng.randint(1, 10 ** 6)
+        case["tag"] += "+call-in-condition"
+    if rng.random() < 0.3:
+        case["odd_temps"] = True
+        case["tag"] += "+temporaries-named-like-t-dt"
     return case
 
 
@@ -237,7 +300,7 @@ def cases(rng, tier):
         tries += 1
         c = g_case(rng)
         try:
-            total = count_calls(c)
+            total, in_cond = count_calls(c)
         except (sc.Inexact, ValueError):
             continue
         if total == 0:
@@ -245,6 +308,13 @@ def cases(rng, tier):
         c["k"] = 1 + int(c["kfrac"] * total) % total
         c["total_calls"] = total
         c["exc_class"] = EXC_CLASSES[n % len(EXC_CLASSES)]          # every class equally often
+        if in_cond and rng.random() < 0.7:
+            # fail a call made from inside a condition; half of these with the exception class that a missing
+            # attribute raises (the one a sloppy `getattr`-style fallback around the condition would swallow)
+            c["k"] = rng.choice(in_cond)
+            c["tag"] += "+fails-in-condition"
+            if rng.random() < 0.5:
+                c["exc_class"] = rng.choice(["AttributeError", "InjectedAttr"])
         n += 1
         yield c
 
@@ -259,7 +329,7 @@ def run_case(case):
     # no eviction: the order in which the real controller takes independent statements depends on the
     # addresses of the statement objects (frozenset of objects hashed by identity), so a second run of the
     # same case in this process may fail at a different prefix; impl, model_input and oracle must see ONE run
-    code = c01.build_code(case)
+    code = build_code(case)
     res = {}
     for kind in ("interp", "gen"):
         fz = Faulty(case["k"], case.get("exc_class", "Injected"))
@@ -276,6 +346,9 @@ def run_case(case):
             r["post"] = get_state(m, kind, names, obs)
             r["visible"] = visible_names(m, kind)
             r["attrs_before"] = info["attrs_before"]
+            if kind == "gen":
+                r["attr_of"] = {v: names.name_global(v)[5:] for ph in code.phases.values() for st in ph.statements
+                                for v in (st.get_read_variables() | st.get_written_variables()) if c01.persistent(v)}
             r["executed"] = info["executed"]
             r["resume"] = resume_vs_fresh(case, kind, code, m, names)
         res[kind] = r
@@ -303,7 +376,7 @@ def impl(case):
     if not ri["reached"]:
         return {"dropped": "fault not reached"}
     # what the Lean model is asked: the interpreter's aborted step
-    code = c01.build_code(case)
+    code = build_code(case)
     ph = code.phases[ri["phase"]]
     failing = ri["executed"][-1] if ri["executed"] else None
     st = ph.id_to_stmt[failing] if failing else None
@@ -315,9 +388,10 @@ def impl(case):
 def model_input(case):
     res = run_case(case)
     ri = res["interp"]
-    code = c01.build_code(case)
+    code = build_code(case)
     phname = ri["phase"]
-    ph = [p for p in case["phases"] if p["name"] == phname][0]
+    phases = _rename(case["phases"], ODD_TEMPS) if case.get("odd_temps") else case["phases"]
+    ph = [p for p in phases if p["name"] == phname][0]
     stmts = sorted(code.phases[phname].statements, key=lambda s: c02.idx(s.id))
     failing = ri["executed"][-1] if ri["executed"] else None
     st = code.phases[phname].id_to_stmt[failing] if failing else None
@@ -381,7 +455,7 @@ def oracle(case, out):
         return {"what": f"{labels[k]}: the {case.get('exc_class', 'Injected')} raised by the user function (call {case['k']}) did not "
                         f"reach the caller of run(): {v}", "sig": k + "-exception-lost"}
     res = run_case(case)
-    code = c01.build_code(case)
+    code = build_code(case)
     for kind, label in (("interp", "interpreter"), ("gen", "generated Python class")):
         r = res[kind]
         if "error" in r or not r["reached"]:
@@ -395,7 +469,11 @@ def oracle(case, out):
             if bad:
                 return {"what": f"{label}: per-step variables {bad} are visible after the failed step", "sig": kind + "-temporaries"}
         else:
-            bad = [n for n in r["visible"] if n not in (r["attrs_before"] or []) and not n.startswith("global_")]
+            # instance attributes that hold persistent variables of this program; nothing else may appear
+            pers = {v for ph in code.phases.values() for st in ph.statements
+                    for v in (st.get_read_variables() | st.get_written_variables()) if c01.persistent(v)}
+            allowed = {r["attr_of"].get(v) for v in pers}
+            bad = [n for n in r["visible"] if n not in (r["attrs_before"] or []) and n not in allowed]
             if bad:
                 return {"what": f"{label}: new instance attributes {bad} after the failed step", "sig": kind + "-temporaries"}
         # (3) justified values
